@@ -17,6 +17,7 @@ type Env struct {
 	u     *Univ
 	vars  map[string]TV
 	old   *Env
+	loopEntry *Env // values on entry to the loop whose invariant is being translated (at_loop_entry)
 	lets  map[string]*Expr
 	bound map[string]string
 	specs map[string]*SpecFn
@@ -416,6 +417,15 @@ func (env *Env) trCall(e *Expr, expect string) TV {
 		oe.lets = env.lets
 		oe.specs = env.specs
 		return oe.tr(e.Args[0], expect)
+	case "at_loop_entry":
+		if env.loopEntry == nil {
+			trFail("at_loop_entry() is only available in loop invariants")
+		}
+		le := *env.loopEntry
+		le.bound = env.bound
+		le.lets = env.lets
+		le.specs = env.specs
+		return le.tr(e.Args[0], expect)
 	case "len":
 		x := env.tr(e.Args[0], "")
 		if _, ok := sliceElem(x.S); ok {
